@@ -17,7 +17,7 @@ props_for() {
   for f in $(grep '^+++ b/' $1 | sed 's|+++ b/||'); do
     case $f in
       revocation.go|configparser.go|caddyfile.go|config/*) props="$props C03 C19 C01";;
-      crl/crlrevocationchecker.go) props="$props C10 C15 C13 C01 C20";;
+      crl/crlrevocationchecker.go) props="$props C10 C15 C13 C01 C20 C09 C17";;
       crl/crlrepository/*) props="$props C08 C09 C10 C11 C12 C13 C16 C04 C01 C15 C20 C17";;
       crl/crlstore/*) props="$props C18 C09 C08 C11 C12 C16 C10 C01 C20 C17";;
       crl/crlloader/*) props="$props C20 C10 C15 C17";;
